@@ -67,6 +67,8 @@ type CtxRec struct {
 	State     string   `json:"state"`
 	Thr       int64    `json:"thr"`
 	Module    string   `json:"module"`
+	RResp     string   `json:"rresp"`
+	RState    string   `json:"rstate"`
 }
 type QHRec struct {
 	ID int   `json:"id"`
@@ -394,8 +396,10 @@ func (c *Chain) ProjectCtx(ctx sdk.Context) *State {
 			for _, p := range r.Providers {
 				provs = append(provs, c.Name(p))
 			}
+			cid := c.ctxOf(body, "context key", anom)
 			st.Ctx = append(st.Ctx, CtxRec{
-				ID: c.ctxOf(body, "context key", anom), Svc: r.ServiceName, Provs: provs, Cons: c.Name(r.Consumer),
+				RResp: c.React[cid][0], RState: c.React[cid][1],
+				ID: cid, Svc: r.ServiceName, Provs: provs, Cons: c.Name(r.Consumer),
 				Input: r.Input, Cap: c.amount(r.ServiceFeeCap, "fee cap", anom), Timeout: clip(r.Timeout, "timeout", anom),
 				Super: r.SuperMode, Rep: r.Repeated, Freq: clip(int64(r.RepeatedFrequency), "frequency", anom),
 				Total: clip(r.RepeatedTotal, "total", anom), Batch: clip(int64(r.BatchCounter), "batch", anom),
